@@ -3,6 +3,7 @@
 //   vph record <kind> <n> <seed> <out.ndjson> [...]  I->S: random drivers recording trace events
 mod core;
 mod ops;
+mod record;
 
 use std::fs::{File, OpenOptions};
 use std::io::{BufRead, BufReader, Seek, SeekFrom, Write};
@@ -69,6 +70,20 @@ fn main() {
     }
     match args[1].as_str() {
         "replay" => replay(&args[2..]),
+        "record" => {
+            let kind = args[2].as_str();
+            let n: usize = args[3].parse().unwrap();
+            let seed: u64 = args[4].parse().unwrap();
+            let mut out = std::io::BufWriter::new(File::create(&args[5]).expect("create out"));
+            match kind {
+                "score" | "tags" => record::record_predict(kind, n, seed, &mut out),
+                _ => {
+                    eprintln!("unknown record kind");
+                    std::process::exit(2);
+                }
+            }
+            out.flush().unwrap();
+        }
         _ => {
             eprintln!("unknown subcommand");
             std::process::exit(2);
